@@ -46,8 +46,12 @@ def _is_lib(obj) -> bool:
     return m.startswith("xsdata")
 
 
-def flatten(roots: dict, max_depth: int = 12) -> dict:
+def flatten(roots: dict, max_depth: int = 12, rewrite: dict | None = None) -> dict:
+    """rewrite: {attribute name: fn(value) -> value} applied to lib-object attributes before
+    walking them (used to express an environment-relative value, e.g. a recorded
+    len(sys.modules), relative to the environment instead of absolutely)."""
     out: dict = {}
+    rewrite = rewrite or {}
     seen: dict[int, str] = {}
 
     def walk(x, path: str, depth: int):
@@ -89,6 +93,8 @@ def flatten(roots: dict, max_depth: int = 12) -> dict:
                 except AttributeError:
                     out[f"{path}.{a}"] = "<unset>"
                     continue
+                if a in rewrite:
+                    v = rewrite[a](v)
                 walk(v, f"{path}.{a}", depth + 1)
             return
         out[path] = f"<{type(x).__module__}.{type(x).__qualname__}>"
